@@ -656,7 +656,11 @@ func (e *btEnv) arraySourceByAppend(vals []hx.TV, addrN uint64, ty hx.TI) *btArr
 // scenarioArrayMergeProne: elements of about 0.4 T (two of them cannot be lent by a slab that
 // must keep half a slab) followed by one or two tiny ones: the underfull last slab cannot borrow
 // and is merged into its left sibling.
-func (e *btEnv) scenarioArrayMergeProne() {
+// scenarioArrayMergeProne builds from j slab-fulls of large elements followed by one or two tiny
+// ones: the last data slab underflows and its left neighbour cannot lend, so the two are merged.
+// forceJ > 0 fixes the number of slab-fulls (1: the merge result is the ROOT data slab; 2: a
+// two-leaf tree whose last leaf is a merge result).
+func (e *btEnv) scenarioArrayMergeProne(forceJ int) {
 	m := e.maxInl
 	sz := m*3/4 + uint32(e.rng.Intn(int(m/6)+1))
 	k := (int(e.T) - 21 + int(sz) - 1) / int(sz)
@@ -664,6 +668,9 @@ func (e *btEnv) scenarioArrayMergeProne() {
 	if e.rng.Intn(3) == 0 {
 		maxN := (int(e.maxThr) - 12) / 14
 		j = maxN*(1+e.rng.Intn(3)) + e.rng.Intn(2)
+	}
+	if forceJ > 0 {
+		j = forceJ
 	}
 	if e.T >= 8192 && j > 40 {
 		j = 40
@@ -1988,7 +1995,11 @@ func batchStream(cfg *Config) *hx.Stats {
 			}
 		}
 		for i := 0; i < 8; i++ {
-			e.scenarioArrayMergeProne()
+			f := 0
+			if i < 3 {
+				f = i + 1 // directed: merge into a root data slab, into the last of two / three leaves
+			}
+			e.scenarioArrayMergeProne(f)
 		}
 		// --- copies
 		for i := 0; i < 16; i++ {
